@@ -33,6 +33,13 @@ def identByName (derived : List String) (s : String) : Option String :=
   let n := stripPrefix s
   if derived.contains n then some n else none
 
+/-- toIdentRef with the bases of the type: RFC 7950 9.10.2, a value is derived from every base; `closures` holds,
+    per base, the identities derived from it (directly or not - the base itself is not among them) -/
+def identOfBases (closures : List (List String)) (n : String) : Option String :=
+  if !closures.isEmpty && closures.all (·.contains n) then some n else none
+def identByBases (closures : List (List String)) (s : String) : Option String :=
+  identOfBases closures (stripPrefix s)
+
 /-- ConvOneOf: first member that converts -/
 def unionFirst {α β : Type} (members : List (α → Option β)) (v : α) : Option β :=
   members.findSome? (· v)
